@@ -49,7 +49,7 @@ func genHistory(r *rand.Rand, maxSide, maxLen int, alphaOnly bool) animHist {
 	}
 	cur := img.Gen(r, img.Pick(r, img.Classes), alpha, h.CW, h.CH)
 	n := 1 + r.Intn(maxLen)
-	durs := []int{0, 1, 40, 100, 1000, 0xFFFFFF, 0xFFFFFE, 0x800000, 0x7FFFFF}
+	durs := []int{0, 1, 40, 100, 1000, 0xFFFFFF, 0xFFFFFE, 0x800000, 0x7FFFFF, 0x1000000}
 	// scripted flavour: forced key frames every kmaxScript frames, and the picture right after a
 	// (non-first) key frame erases most of the canvas: the dispose-to-background candidate matters there
 	kmaxScript := 0
@@ -278,7 +278,7 @@ func runAnimRoundTrip(c *ev.Ctx, lossyAlpha bool) {
 	if !lossyAlpha {
 		c.Rule = "lossless AnimEncoder -> bytes -> DecodeBytes -> DecodeFrames -> AnimDecoder playback over frame histories from a mutation grammar (speckles, alpha toggles, untouched " +
 			"translucent pixels inside changed rectangles, regions becoming transparent again, repeats, single edge lines, diagonal strokes, fades, full changes, 1x1 canvases, frames smaller " +
-			"than the canvas, sub-image views) x durations (0..2^24-1 incl. merge overflow) x Kmin/Kmax x loop count; both sides normalised by merging consecutive identical canvases " +
+			"than the canvas, sub-image views) x durations (0..2^24 incl. the per-frame maximum 2^24-1, one above it, and merge overflow) x Kmin/Kmax x loop count; both sides normalised by merging consecutive identical canvases " +
 			"(transparent pixels equal whatever their colour); with >= 2 distinct pictures also per-picture display time, total duration, loop count; playback is done twice (AnimDecoder and " +
 			"an independent compositor) for attribution; distinct = (grammar steps multiset, canvas bucket, options)"
 	} else {
